@@ -49,7 +49,10 @@ class BaseFuelBurnModel(ABC):
             specific_ground_range < 1, np.inf, specific_ground_range
         )
         # backwards means last element stays and the rest get adjusted by
-        # addition instead of subtraction
+        # addition instead of subtraction. Per-segment distances have to be
+        # reversed along with the integrand.
+        if np.ndim(segment_distance) > 0:
+            segment_distance = np.asarray(segment_distance)[::-1]
         cumulative_integral = cumulative_trapezoid(
             1 / specific_ground_range_corrected[::-1], dx=segment_distance
         )[::-1]
